@@ -32,10 +32,41 @@ theorem exists_last (key : R → Bytes) (rs : List R) (k : Bytes) (h : ∃ r ∈
         exact hx ⟨s, hs, he⟩
       · exact absurd ⟨r, hr', hk⟩ hx
 
+/-- A record with an unparsable integrity contributes nothing to a lookup … -/
+theorem findStep_bad (c : Codec R M) (k : Bytes) (acc : Option M) (r : R) (hb : (c.cls r).isBad = true) :
+    c.findStep k acc r = acc := by
+  unfold Codec.findStep
+  split
+  · cases hc : c.cls r <;> simp [hc, Cls.isBad] at hb ⊢
+  · rfl
+
+/-- … so lookups see exactly the listable records. -/
+theorem findIn_listable (c : Codec R M) (k : Bytes) (rs : List R) :
+    c.findIn k (c.listable rs) = c.findIn k rs := by
+  unfold Codec.findIn Codec.listable
+  generalize (none : Option M) = acc
+  induction rs generalizing acc with
+  | nil => rfl
+  | cons r rs ih =>
+    by_cases hb : (c.cls r).isBad = true
+    · simp only [List.filter, hb, Bool.not_true, List.foldl_cons, findStep_bad c k acc r hb]
+      exact ih acc
+    · have hb' : (c.cls r).isBad = false := by simpa using hb
+      simp only [List.filter, hb', Bool.not_false, List.foldl_cons]
+      exact ih _
+
+theorem listable_good (c : Codec R M) (rs : List R) :
+    ∀ r ∈ c.listable rs, ∀ acc, (c.cls r).apply acc = (c.cls r).apply none := by
+  intro r hr acc
+  have hb : (c.cls r).isBad = false := by
+    have := (List.mem_filter.mp hr).2
+    simpa using this
+  cases hc : c.cls r <;> simp [hc, Cls.isBad, Cls.apply] at hb ⊢
+
 /-- **Once each**: the records kept by the listing have pairwise distinct keys. -/
 theorem ls_keys_nodup (c : Codec R M) (rs : List R) :
-    ((dedupKey c.key rs.reverse).map c.key).Nodup :=
-  dedupAux_nodup c.key [] rs.reverse
+    ((dedupKey c.key (c.listable rs).reverse).map c.key).Nodup :=
+  dedupAux_nodup c.key [] (c.listable rs).reverse
 
 /-- **Soundness**: every listed entry is what a lookup of its key returns. -/
 theorem listed_sound (c : Codec R M) (rs : List R) (m : M) (hm : m ∈ listed c rs) :
@@ -43,46 +74,47 @@ theorem listed_sound (c : Codec R M) (rs : List R) (m : M) (hm : m ∈ listed c 
   unfold listed Codec.lsOf at hm
   obtain ⟨cl, hcl, hlive⟩ := List.mem_filterMap.mp hm
   obtain ⟨r, hr, rfl⟩ := List.mem_map.mp hcl
-  obtain ⟨pre, post, he, hp⟩ := (mem_dedupKey_reverse c.key rs r).mp hr
+  obtain ⟨pre, post, he, hp⟩ := (mem_dedupKey_reverse c.key (c.listable rs) r).mp hr
   have hcls : c.cls r = .live m := by
     cases hc : c.cls r <;> simp [hc] at hlive
     subst hlive; rfl
-  refine ⟨r, by simp [he], hcls, ?_⟩
-  rw [he, c.findIn_last pre post r hp, hcls]; rfl
+  have hmem : r ∈ c.listable rs := by simp [he]
+  refine ⟨r, (List.mem_filter.mp hmem).1, hcls, ?_⟩
+  rw [← findIn_listable, he, c.findIn_last pre post r hp, hcls]; rfl
 
-/-- **Completeness**: whatever a lookup finds is listed — provided no record carries an
-unparsable integrity (no record written by `insert` does; a foreign record that does is skipped by
-the listing while a lookup falls back to the record before it). -/
+/-- **Completeness, unconditionally**: whatever a lookup finds is listed.  (Before the repair of
+F21 the listing picked the newest record of each key first and dropped it afterwards when its
+integrity did not parse, while a lookup falls back to the record before it: the two disagreed on
+such foreign records, and this theorem needed the side condition "no unparsable integrity".) -/
 theorem listed_complete (c : Codec R M) (rs : List R) (k : Bytes) (m : M)
-    (hgood : ∀ r ∈ rs, ∀ acc, (c.cls r).apply acc = (c.cls r).apply none)
     (hf : c.findIn k rs = some m) : m ∈ listed c rs := by
-  by_cases hk : ∃ r ∈ rs, c.key r = k
-  · obtain ⟨pre, r', post, he, hkr, hp⟩ := exists_last c.key rs k hk
+  rw [← findIn_listable] at hf
+  have hgood := listable_good c rs
+  unfold listed Codec.lsOf
+  generalize c.listable rs = ls at hf hgood
+  by_cases hk : ∃ r ∈ ls, c.key r = k
+  · obtain ⟨pre, r', post, he, hkr, hp⟩ := exists_last c.key ls k hk
     subst hkr
     rw [he, c.findIn_last pre post r' hp] at hf
-    have hr'mem : r' ∈ rs := by simp [he]
+    have hr'mem : r' ∈ ls := by simp [he]
     rw [hgood r' hr'mem] at hf
     have hcls : c.cls r' = .live m := by
       cases hc : c.cls r' <;> simp [hc, Cls.apply] at hf
       subst hf; rfl
-    unfold listed Codec.lsOf
     apply List.mem_filterMap.mpr
     refine ⟨.live m, ?_, rfl⟩
     apply List.mem_map.mpr
-    exact ⟨r', (mem_dedupKey_reverse c.key rs r').mpr ⟨pre, post, he, hp⟩, hcls⟩
-  · have : c.findIn k rs = none := c.findIn_none k rs (fun s hs he => hk ⟨s, hs, he⟩)
+    exact ⟨r', (mem_dedupKey_reverse c.key ls r').mpr ⟨pre, post, he, hp⟩, hcls⟩
+  · have : c.findIn k ls = none := c.findIn_none k ls (fun s hs he => hk ⟨s, hs, he⟩)
     rw [this] at hf; cases hf
 
-/-- A key that a lookup does not find (never written, or removed last) is not listed. -/
-theorem not_listed_when_absent (c : Codec R M) (rs : List R) (m : M) (r : R) (hr : r ∈ rs)
-    (hcls : c.cls r = .live m) (habs : c.findIn (c.key r) rs = none) :
-    ¬ (∃ r' ∈ dedupKey c.key rs.reverse, r' = r) := by
-  rintro ⟨r', hr', rfl⟩
-  obtain ⟨pre, post, he, hp⟩ := (mem_dedupKey_reverse c.key rs r').mp hr'
-  rw [he, c.findIn_last pre post r' hp, hcls] at habs
-  cases habs
+/-- **Listing and lookup agree, both ways**: `m` is listed iff a lookup of its key returns it. -/
+theorem listed_iff_found (c : Codec R M) (rs : List R) (m : M) :
+    m ∈ listed c rs ↔ ∃ r ∈ rs, c.cls r = .live m ∧ c.findIn (c.key r) rs = some m :=
+  ⟨listed_sound c rs m, fun ⟨r, _, _, hf⟩ => listed_complete c rs (c.key r) m hf⟩
 
-/-- Non-vacuity of `listed_complete`'s side condition: tombstones and live records satisfy it. -/
+/-- The side condition completeness needed before the repair is now a property of `listable`:
+tombstones and live records satisfy it, unparsable ones are filtered out. -/
 example (m : M) : ∀ acc, (Cls.live m).apply acc = (Cls.live m).apply none := fun _ => rfl
 example : ∀ acc : Option M, (Cls.tomb : Cls M).apply acc = (Cls.tomb : Cls M).apply none :=
   fun _ => rfl
